@@ -406,6 +406,8 @@ func checkC10(c *Check) {
 		c.Hold("R2", "readMessageMeta:type", rr.FI.Decl.Pos(), okT, "the reader decodes into a type other than the one the writer encodes")
 	}
 
+	c10EnvelopeReadOnly(c, "R8")
+
 	// ---- R3e: per-message flags are finalised after MAIL (TLS-Required override at DATA, quarantine by the checks), so
 	// every layer down to the spool must keep the very metadata object it was given
 	c.Rule("R3e", "because the endpoint and the checks write per-message flags after the delivery was started, the pipeline and the queue keep the metadata object they were given (no copy at Start)", 3)
